@@ -32,6 +32,7 @@ class Node:
         self.ida, self.idb, self.ids = hx(cfg.get("idA", "")), hx(cfg.get("idB", "")), hx(cfg.get("idS", ""))
         self.pset = cfg.get("pset", 0)
         self.host = cfg.get("host", 0)
+        self.subclass = bool(cfg.get("subclass"))
         self.impl = cfg.get("impl", "real")
         self.entropy = EntropySource(cfg.get("entropy"))
         self.inst = None          # volatile
@@ -74,7 +75,8 @@ class World:
         # default copy of the library; a scenario with "fresh_hosts" gives every host its own
         # brand-new copy (so the run is self-contained) and may `reboot` a host.
         self.ephemeral = bool(config.get("ephemeral_params"))   # custom _Params live and die with a session
-        self.fresh_hosts = bool(config.get("fresh_hosts"))
+        self.optimize = bool(config.get("python_O"))          # the simulated processes run under -O
+        self.fresh_hosts = bool(config.get("fresh_hosts")) or self.optimize
         self.hosts = {} if self.fresh_hosts else {0: self.lib}
         self.reboots = 0
         self.config = config
@@ -91,7 +93,7 @@ class World:
 
     def host_lib(self, h):
         if h not in self.hosts:
-            self.hosts[h] = loader.load_fresh() if self.fresh_hosts else self.lib
+            self.hosts[h] = loader.load_fresh(self.optimize) if self.fresh_hosts else self.lib
         return self.hosts[h]
 
     def op_reboot(self, step):
@@ -108,7 +110,7 @@ class World:
                     n.lost = True
                 down.append(n.idx)
         if self.fresh_hosts:
-            self.hosts[h] = loader.load_fresh()
+            self.hosts[h] = loader.load_fresh(self.optimize)
         self.reboots += 1
         self.probe("host-reboot")
         return self.log(step, "down", host=h, nodes=down)
@@ -156,7 +158,7 @@ class World:
         if n.impl == "model":
             n.inst = "model"
             return self.log(step, "ok")
-        K = n.lib().classes[n.cls]
+        K = n.lib().klass(n.cls, n.subclass)
         try:
             P = n.lparams()
         except Exception as ex:          # the library refused to build this parameter set
@@ -315,7 +317,7 @@ class World:
             n.calls = [("restore", "inst")]
             n.model_out = spec.out
             return self.log(step, "inst", dg(spec.out))
-        K = n.lib().classes[cls]
+        K = n.lib().klass(cls, n.subclass)
         try:
             P = n.lparams(pset)
         except Exception as ex:
@@ -325,6 +327,7 @@ class World:
             return self.log(step, "exc:" + r[1])
         n.impl = "real"
         n.inst = r[1]
+        n.restored_type_ok = type(r[1]) is K
         n.restores += 1
         n.calls = [("restore", "inst")]
         if (cls, pset) != (saved_cls, saved_pset):
@@ -350,7 +353,7 @@ class World:
             dst.calls.append(("finish", oc))
             if dst.result is None or dst.result[0] != "key":
                 dst.result = ("exc", r[1])
-            ev = self.log(step, oc, dg(wire), fault=fkind if fault_applied else None)
+            ev = self.log(step, oc, dg(bytes(wire)), fault=fkind if fault_applied else None)
         else:
             dst.calls.append(("finish", "key"))
             ev = self.log(step, "key", dg(r[1]), fault=fkind if fault_applied else None)
@@ -358,7 +361,7 @@ class World:
             if dst.result is not None and dst.result[0] == "key":
                 ev["second_key"] = True
             dst.result = ("key", r[1])
-        ev["wire"] = wire
+        ev["wire"] = bytes(wire)
         return ev
 
     def op_deliver(self, step):
@@ -392,6 +395,10 @@ class World:
         wire = label + self.resolve_body(body, dst.cur_pset, dst)
         kind = "craft:" + body.get("kind", "?")
         self.fired[kind] = self.fired.get(kind, 0) + 1
+        if step.get("as") == "bytearray":
+            wire = bytearray(wire)
+        elif step.get("as") == "memoryview":
+            wire = memoryview(wire)
         return self._finish(step, dst, wire, True, kind)
 
 
@@ -444,7 +451,7 @@ class World:
                 n.calls.append(("serialize", "exc:" + r[1]))
                 return self.log(step, "exc:" + r[1], what=what, phase="serialize")
             blob = r[1]
-            K = n.lib().classes[n.cur_cls]
+            K = n.lib().klass(n.cur_cls, n.subclass)
             P = n.lparams()
             r2 = self._call(n, "from_serialized", lambda: K.from_serialized(blob, params=P))
             if r2[0] == "exc":
@@ -475,6 +482,10 @@ class World:
                 wire = acc + g.enc(g.identity)
             else:
                 raise ValueError(what)
+            if step.get("as") == "bytearray":
+                wire = bytearray(wire)
+            elif step.get("as") == "memoryview":
+                wire = memoryview(wire)
             ev = self._finish(step, n, wire, True, "call:" + k)
             ev["what"] = what
             return ev
